@@ -29,21 +29,27 @@ MANIFEST = dict(
     text="Lean 4 theorems (XmpProps.C06) over a model of struct context_data whose field list is generated from the real headers on every "
          "run: C06_history_independent proves for ALL pairs of prior states that agree on the documented persistent settings, ALL loaders/"
          "quirk tables/scans (as functions of explicit read sets) and ALL configurations that load;start yields the same player view "
-         "(every live member); C06_loaded_view the same for the frame information available right after load; C06_reset_complete (decide) "
-         "that every member a loader may leave untouched has been reset; C06_globals_whitelisted (decide over the objdump-generated list) "
-         "that the only writable globals are two lazily filled constant tables and one never-written ABI pointer; C06_idempotent_fill / "
-         "C06_crc_partial_fill that their fills are idempotent and every intermediate state of a re-fill equals the final table; C06_pure. "
-         "The model is tied to the C on every run by a differential correspondence of each modelled operation over the complete context "
-         "image, and the property itself is searched directly on the real library (fresh vs reused contexts, enumerated and sampled "
-         "interleavings of two contexts, real threads, TSan in the thorough tier).",
+         "(every live member); C06_restart_independent the same for a second xmp_start_player on the same loaded module after any amount "
+         "of playing; C06_loaded_view for the frame information available right after load; C06_reset_complete / C06_fields_classified "
+         "that every member a loader may leave untouched has been reset and every generated member is classified; "
+         "C06_globals_whitelisted (decide over the objdump-generated list) that the only writable globals are a lazily filled constant "
+         "table and a never-written ABI pointer (C06_crc_table_const: the now constant Vorbis CRC table equals the former fill); "
+         "C06_idempotent_fill / C06_crc_partial_fill that fills are idempotent; C06_pure (isolation under every interleaving, in the model); "
+         "C06_leak_if_unreset (non-vacuity: dropping one reset makes the statement false). The model is tied to the C on every run by a "
+         "differential correspondence of each modelled operation over the complete context image (and of the set of members playing may "
+         "change), and the property itself is searched directly on the real library (fresh vs reused vs restarted contexts, enumerated "
+         "and sampled interleavings of two contexts, real threads, TSan in the thorough tier).",
     note="Trusted: Lean kernel (propext/Classical.choice/Quot.sound), tools/gen_ctx_fields.py + gen_globals.py, the hand-written model "
          "XmpModel/Reset.lean, harnesses and differ. Modelled-not-verified: what format loaders, module_quirks/libxmp_set_player_mode, the "
-         "scan and the allocation initialisers compute (they are arbitrary functions of their declared read sets: persistent settings for "
-         "loaders, the loaded module for the rest; a loader reading a member outside its read set would escape the proof and is only caught "
-         "by the image comparison); pointees are compared by digest in the harness but are single abstract values in the model; members "
-         "declared dead (s.pbase, p.buffer_data.in_buffer, m.xxo_info[].start_row) and non-live array entries (xxo_info of unscanned orders, "
-         "seq_data beyond num_sequences) keep old data by design. Real-thread schedules are outside the model: the pthread/TSan runs are "
-         "search only. Failure paths of load/start are not modelled (C04). Correspondence is sampled, not exhaustive.",
+         "scan and the allocation initialisers compute (arbitrary functions of their declared read sets: persistent settings for loaders, "
+         "the loaded module for the rest; code reading outside its read set escapes the proof and is only caught by the image comparison); "
+         "playback itself (xmp_play_frame, effects) is not modelled: that it writes only members outside the set B is checked by the "
+         "harness (diff_played), and module-wide state behind m.extra (FAR tempo/vibrato, restored by libxmp_reset_module_extras) is "
+         "compared by the harness only; pointees are digests in the harness and single abstract values in the model; members declared "
+         "dead (s.pbase, p.buffer_data.in_buffer, m.xxo_info[].start_row) and non-live array entries (xxo_info of unscanned orders, "
+         "seq_data beyond num_sequences) keep old data by design; settings that deliberately stay until the next load (XMP_PLAYER_CFLAGS, "
+         "XMP_PLAYER_MODE, tempo factor) are not varied inside a restart. Real-thread schedules are outside the model: pthread/TSan runs "
+         "are search only. Failure paths of load/start are not modelled (C04). Correspondence is sampled, not exhaustive.",
     technique="Lean 4: agreement-set propagation through the field-update model with `cases` over the generated field enumeration, `decide` "
               "over generated lists + differential correspondence of whole context images + direct interleaving/thread oracle",
     design_ref="DESIGN.md section 4 C06",
@@ -52,7 +58,7 @@ NS = "Xmp.Reset."
 REQUIRED = [NS + n for n in (
     "C06_history_independent", "C06_loaded_view", "C06_reset_complete", "C06_fields_classified", "C06_globals_whitelisted",
     "C06_idempotent_fill", "C06_crc_partial_fill", "C06_pure", "C06_persistent_kept", "C06_leak_if_unreset",
-    "C06_restart_independent")]
+    "C06_restart_independent", "C06_crc_table_const")]
 
 # members the model declares not to be reset / not always live (must mirror Xmp.Reset.Dead / Live; checked by drv output)
 MODEL_DEAD = set()       # filled from the driver (`sets`): Xmp.Reset.Dead
@@ -430,6 +436,7 @@ def replay(ck, rp):
     variant = r.get("variant", "asan")
     exe = build(hname, variant)
     script = r.get("script")
+    path = "(argv) " + " ".join(str(x) for x in r.get("argv", []))
     if not script:
         argv = [str(x) for x in r.get("argv", [])] + list(r.get("modules", []))
         rc, out, err = vlib.run_exe(exe, argv, timeout=3000)
@@ -441,5 +448,5 @@ def replay(ck, rp):
     print("\n".join(l for l in o.splitlines() if not l.startswith(("val ", "pre ", "post ")))[-3000:])
     print(err[-3000:])
     if rc != 0:
-        print("VIOLATION property=C06 replay=%s" % rp.get("signature", "?"))
+        print("VIOLATION property=C06 replay=%s signature=%s" % (path, rp.get("signature", "?")))
     return 1 if rc != 0 else 0
